@@ -123,6 +123,12 @@ def _check(case):
 
     g0 = gam(x)
     l0 = (math.log(g0[0]), math.log(g0[1]))
+    # a result kept by the caller must not change when the function is called again (no shared output buffer)
+    kept = call(calculate_activity_coefficients, t, mix, build.composition(x, "molar"), mdl)
+    call(calculate_activity_coefficients, t, mix, build.composition(0.5 * x + 0.25, "molar"), mdl)
+    call(calculate_activity_coefficients, t + 7.0, mix, build.composition(1.0 - x, "molar"), mdl)
+    require(not is_raised(kept) and float(kept[0]) == g0[0] and float(kept[1]) == g0[1],
+            "activity coefficients returned for x=%r changed to %r after later calls (were %r)", x, kept, g0)
 
     # (a) Gibbs-Duhem
     h = min(1e-4, x / 4, (1 - x) / 4)
